@@ -257,7 +257,7 @@ impl<T> OneShotShared<T> {
       // If empty and all senders are gone, it's disconnected.
       if current_state == STATE_EMPTY && self.sender_count.load(Ordering::Acquire) == 0 {
         // Attempt to transition to CLOSED if not already done by last sender drop
-        self
+        if self
           .state
           .compare_exchange(
             STATE_EMPTY,
@@ -265,7 +265,12 @@ impl<T> OneShotShared<T> {
             Ordering::Relaxed,
             Ordering::Relaxed,
           )
-          .ok();
+          .is_err()
+        {
+          // The state moved on between our load of `state` and of `sender_count`: a sender
+          // completed its send before it went away. The value must not be reported lost.
+          return self.try_recv();
+        }
         Err(TryRecvError::Disconnected)
       } else {
         Err(TryRecvError::Empty) // Not ready yet, or senders still active / writing
@@ -297,7 +302,7 @@ impl<T> OneShotShared<T> {
           }
           // Check again if all senders dropped AFTER deciding it's Empty
           if current_state == STATE_EMPTY && self.sender_count.load(Ordering::Acquire) == 0 {
-            self
+            if self
               .state
               .compare_exchange(
                 STATE_EMPTY,
@@ -305,7 +310,11 @@ impl<T> OneShotShared<T> {
                 Ordering::Relaxed,
                 Ordering::Relaxed,
               )
-              .ok();
+              .is_err()
+            {
+              // A sender completed its send (and went away) after `current_state` was read.
+              continue;
+            }
             return Poll::Ready(Err(RecvError::Disconnected));
           }
 
